@@ -21,8 +21,8 @@ VIA = {'indirect-numeric': ('vind [{}]', [0xB5]), 'deferred-numeric': ('vdef [[{
        'indirect-indexed-register': ('viix [a+{}]', [0xC9, 0x31]), 'indirect-register-offset': ('viro [sp + {}]', [0xCB, 0x05])}
 
 
-def make_isa(zones):
-    isa = gen_prog.layout_isa(16, endian='big', zones=zones)
+def make_isa(zones, data=None):
+    isa = gen_prog.layout_isa(16, endian='big', zones=zones, data=data)
     isa['general']['registers'] = list(isa['general']['registers']) + ['SPQ', 'Rx', 'IDX']
     a16 = {'size': 16, 'byte_align': True}
     isa['operand_sets'].update({
@@ -39,7 +39,7 @@ def make_isa(zones):
     return isa
 
 
-def resolve_program(files, order):
+def resolve_program(files, order, predefined=None):
     """files: {name: [items]}, order: main file name.  Annotates items; returns dict(kind, why, stream)."""
     stream = []
     state = {'why': None}
@@ -49,6 +49,8 @@ def resolve_program(files, order):
             state['why'] = why
     nreg = [0]
     glob, filel, loc = {}, {}, {}
+    for pn_, pv_ in (predefined or {}).items():
+        glob[pn_] = {'k': 'const', 'name': pn_, 'val': pv_, 'predefined': True}
     seen_files = set()
 
     def walk(fname, depth):
@@ -157,9 +159,9 @@ class C06(core.Check):
         'label-not-first-on-its-line/global', 'label-not-first-on-its-line/local', 'label-not-first-on-its-line/file',
         'reference-inside:indirect-numeric', 'reference-inside:deferred-numeric', 'reference-inside:indexed-register',
         'reference-inside:indirect-indexed-register', 'reference-inside:indirect-register-offset',
-        'local-inside-operand-form-with-same-named-global']}
+        'local-inside-operand-form-with-same-named-global', 'predefined-data-name-in-a-constant', 'predefined-data-name-in-an-origin']}
 
-    def build(self, rng, illegal, mute_refs=None, zero_refs=None, join_p=0.15, via_p=0.25):
+    def build(self, rng, illegal, mute_refs=None, zero_refs=None, join_p=0.15, via_p=0.25, pre_p=0.35):
         nfiles = rng.choice([1, 1, 2, 2, 3, 4])
         fnames = ['p.asm'] + [f'inc{i}.asm' for i in range(1, nfiles)]
         files = {f: [] for f in fnames}
@@ -170,6 +172,11 @@ class C06(core.Check):
         marker = [1]
         org_next = [0x100]
         zones = [{'name': 'ZQ', 'start': 0x800, 'end': 0x8FF}]
+        # a data block predefined by the configuration: its name is a global name from the first line on
+        pre_data = [{'name': 'io_buf', 'address': 0x600, 'value': 0x5A, 'size': 2}] if rng.random() < pre_p else []
+        predefined = {d_['name']: d_['address'] for d_ in pre_data}
+        if pre_data:
+            tags.add('predefined-data-name')
 
         def mark(L):
             L.append({'k': 'marker', 'v': marker[0] % 250 + 1})
@@ -215,7 +222,13 @@ class C06(core.Check):
                             tags.add('dead-branch-between-local-def-and-use')
                     elif x < 0.68:
                         cn = rng.choice(['K_' + str(marker[0]), '_kf' + str(marker[0])])
-                        L.append({'k': 'const', 'name': cn, 'val': rng.choice([0, 0, 1, 0x4000 + marker[0]])})
+                        if pre_data and rng.random() < 0.5:
+                            # a constant worked out from the predefined name: evaluated while the file is read
+                            k_ = rng.choice([0, 2, 4])
+                            L.append({'k': 'const', 'name': cn, 'val': 0x600 + k_, 'expr': f'io_buf + {k_}' if k_ else 'io_buf'})
+                            tags.add('predefined-data-name-in-a-constant')
+                        else:
+                            L.append({'k': 'const', 'name': cn, 'val': rng.choice([0, 0, 1, 0x4000 + marker[0]])})
                         if used_here:
                             tags.add('const-between-def-and-use')
                     else:
@@ -223,7 +236,11 @@ class C06(core.Check):
                 # references to what is visible here are added later (second pass) at this point
                 L.append({'k': 'refslot', 'locals': list(used_here)})
                 if rng.random() < 0.15:
-                    if rng.random() < 0.5:
+                    if pre_data and rng.random() < 0.4 and not any(x_.get('expr', '').startswith('io_buf +') and x_['k'] == 'org' for x_ in L):
+                        off_ = 0x10 * (1 + fi * 4 + r)
+                        L.append({'k': 'org', 'addr': 0x600 + off_, 'zone_name': None, 'expr': f'io_buf + {off_}'})
+                        tags.add('predefined-data-name-in-an-origin')
+                    elif rng.random() < 0.5:
                         L.append({'k': 'org', 'addr': org_next[0], 'zone_name': None})
                         org_next[0] += 0x40
                     else:
@@ -247,9 +264,9 @@ class C06(core.Check):
             if len(fs) >= 2:
                 tags.add('shadow:file-label-in-2-files')
         # fill reference slots with visible names (legal)
-        res0 = resolve_program({f: [x for x in L if x['k'] != 'refslot'] for f, L in files.items()}, 'p.asm')
+        res0 = resolve_program({f: [x for x in L if x['k'] != 'refslot'] for f, L in files.items()}, 'p.asm', predefined)
         # tables for picking
-        all_glob = [it['name'] for f in fnames for it in files[f] if it['k'] in ('label', 'const') and not it['name'].startswith(('.', '_'))]
+        all_glob = [it['name'] for f in fnames for it in files[f] if it['k'] in ('label', 'const') and not it['name'].startswith(('.', '_'))] + sorted(predefined)
         for f in fnames:
             L = files[f]
             flabs = [it['name'] for it in L if it['k'] in ('label', 'const') and it['name'].startswith('_')]
@@ -290,7 +307,7 @@ class C06(core.Check):
                     if it['k'] == 'ref' and rng.random() < 0.5:
                         it['zero'] = rng.choice(['0', '4-4', '0*9', '$0'])
                         tags.add('reference-in-a-zero-length-fill')
-        m = resolve_program(files, 'p.asm')
+        m = resolve_program(files, 'p.asm', predefined)
         if illegal and m['kind'] != 'REJECT':
             return None
         if not illegal and m['kind'] != 'ACCEPT':
@@ -323,7 +340,7 @@ class C06(core.Check):
                              {'k': k, 'name': it.get('name'), 'addr': it.get('addr'), 'zone_name': it.get('zone_name'), 'src': it})
         exp = None
         if m['kind'] == 'ACCEPT':
-            res = layout.layout(lines, 16, origin=0, predefined_zones=zones, size_of=lambda l, a: l['width'] * len(l['vals']))
+            res = layout.layout(lines, 16, origin=0, predefined_zones=zones, predefined_data=pre_data, size_of=lambda l, a: l['width'] * len(l['vals']))
             if res.kind != 'ACCEPT' or layout.overlaps(res)[0] != 'ACCEPT':
                 return None
             for l in lines:
@@ -366,9 +383,9 @@ class C06(core.Check):
                 elif k == 'label':
                     out.append(it['name'] + ':')
                 elif k == 'const':
-                    out.append(f"{it['name']} = {it['val']}")
+                    out.append(f"{it['name']} = {it.get('expr', it['val'])}")
                 elif k == 'org':
-                    out.append(f".org {it['addr']}")
+                    out.append(f".org {it.get('expr', it['addr'])}")
                 elif k == 'memzone':
                     out.append(f".memzone {it['name']}")
                 elif k == 'include':
@@ -380,7 +397,7 @@ class C06(core.Check):
                 elif k == 'unmute':
                     out.append(rng.choice(['#unmute', '#emit']))
             fl[f] = '\n'.join(out) + '\n'
-        isa = make_isa(zones)
+        isa = make_isa(zones, pre_data or None)
         fn, text = isamod.render_isa(isa, 'json')
         fl[fn] = text
         tags.add('expect:' + m['kind'])
